@@ -768,6 +768,7 @@ fn compare(plan: &RunPlan, trace: &RunTrace, refs: &[std::sync::Arc<Vec<Outcome>
 pub struct LRunResult {
     pub violation: Option<(LViolation, RunPlan, RunTrace)>,
     pub digest: u64,
+    pub plan_digest: u64,
     pub steps: u64,
     pub jobs: u64,
     pub threads: u64,
@@ -946,6 +947,7 @@ fn run_one(env: &mut Env, corpus: &Corpus, seed: u64, run: u64, yields_on: bool)
     let sched_hash = stable_hash(&trace.schedule.iter().map(|e| (e.thread, e.start)).collect::<Vec<_>>());
     let out_hash = stable_hash(&trace.outcomes.iter().map(|js| js.iter().map(|o| match o { Outcome::Ok(s) | Outcome::Rejected(s) => stable_hash(s), Outcome::Panicked => 1, Outcome::Skipped => 2 }).collect::<Vec<_>>()).collect::<Vec<_>>());
     // a run in which a thread really blocked is not schedule-exact: keep it out of the determinism proof
+    let plan_digest = stable_hash(&(run, plan.nthreads, plan.hash_seed, plan.preload, plan.jobs.iter().map(|j| (j.entry_id.clone(), stable_hash(&j.text), j.thread, j.db_group, j.steps.iter().map(step_name).collect::<Vec<_>>())).collect::<Vec<_>>()));
     let digest = if trace.blocked_seen > 0 { stable_hash(&(run, "blocked")) } else { stable_hash(&(run, sched_hash, out_hash, v.as_ref().map(|x| x.detail.clone()))) };
     let shared_db = {
         let mut seen = BTreeSet::new();
@@ -963,6 +965,7 @@ fn run_one(env: &mut Env, corpus: &Corpus, seed: u64, run: u64, yields_on: bool)
     };
     LRunResult {
         digest,
+        plan_digest,
         steps,
         jobs: plan.jobs.len() as u64,
         threads: plan.nthreads as u64,
@@ -1054,7 +1057,7 @@ pub fn worker_main(args: &[String]) -> i32 {
         }
         let r = run_one(&mut env, &corpus, seed, i, yields_on);
         let mut line = json!({
-            "run": i, "digest": r.digest.to_string(), "steps": r.steps, "jobs": r.jobs, "threads": r.threads,
+            "run": i, "digest": r.digest.to_string(), "plan_digest": r.plan_digest.to_string(), "steps": r.steps, "jobs": r.jobs, "threads": r.threads,
             "yield_switches": r.yield_switches, "yields_seen": r.yields_seen, "panics": r.panics, "shared_db": r.shared_db, "preload": r.preload,
             "sched_hash": r.sched_hash.to_string(), "nontrivial": r.nontrivial, "canary_diag": r.canary_diag, "blocked_seen": r.blocked_seen,
         });
@@ -1162,24 +1165,6 @@ pub fn run_tier(paths: &Paths, seed: u64, n: u64, nworkers: usize, selfcheck: u6
             }
         }
     }
-    // determinism self-check: the first runs again in ONE worker process, digests must agree
-    let sc = selfcheck.min(n);
-    if sc > 0 {
-        let out = dir.join("selfcheck.jsonl");
-        let mut ch = spawn_worker(paths, seed, 0, sc, 1, &out, 600).map_err(|e| e.to_string())?;
-        if !ch.wait().map_err(|e| e.to_string())?.success() {
-            return Err("tier L self-check worker failed".into());
-        }
-        for v in collect(&out)? {
-            if let Some(r) = v["run"].as_u64() {
-                if let Some(a) = records.get(&r) {
-                    if a["digest"] != v["digest"] {
-                        return Err(format!("tier L run {r} is not deterministic: digest {} (16 workers) vs {} (1 worker)", a["digest"], v["digest"]));
-                    }
-                }
-            }
-        }
-    }
     let mut out = TierLOutcome { runs: records.len() as u64, wall_s: 0.0, distinct_nontrivial: 0, violations: vec![], known_hits: vec![], samples: vec![], stats: json!({}) };
     let mut scheds: BTreeSet<String> = BTreeSet::new();
     let (mut steps, mut jobs, mut multi_thread, mut yield_switches, mut yields_seen, mut panics, mut shared, mut preload, mut canary) = (0u64, 0u64, 0u64, 0u64, 0u64, 0u64, 0u64, 0u64, 0u64);
@@ -1224,6 +1209,39 @@ pub fn run_tier(paths: &Paths, seed: u64, n: u64, nworkers: usize, selfcheck: u6
             }
         }
     }
+    // determinism self-check (after the violations were collected, which take precedence):
+    // the first runs again in ONE worker process
+    let sc = selfcheck.min(n);
+    if sc > 0 && out.violations.is_empty() {
+        let outp = dir.join("selfcheck.jsonl");
+        let mut ch = spawn_worker(paths, seed, 0, sc, 1, &outp, 600).map_err(|e| e.to_string())?;
+        if !ch.wait().map_err(|e| e.to_string())?.success() {
+            return Err("tier L self-check worker failed".into());
+        }
+        for v in collect(&outp)? {
+            if let Some(r) = v["run"].as_u64() {
+                if let Some(a) = records.get(&r) {
+                    if a["plan_digest"] != v["plan_digest"] {
+                        return Err(format!("tier L run {r} drew different plans in two executions: {} vs {}", a["plan_digest"], v["plan_digest"]));
+                    }
+                    if a["digest"] != v["digest"] {
+                        // same plan, same seed, different observation: the output of a compilation depends on
+                        // something the simulator does not own (e.g. what ran earlier in the worker process)
+                        let sig = json!({"tier": "L", "invariant": "R1", "entry": Value::Null, "backend": Value::Null,
+                            "detail": format!("run {r}: the same plan (jobs, threads, hash stream, schedule seed) gave different step outputs in two worker processes with different earlier history")});
+                        if known.matches(&sig).is_none() && out.violations.len() < 5 {
+                            let path = paths.out.join("replays").join(format!("C11-{seed}-L{r}-R1.json"));
+                            let rec = json!({"property": "C11", "tier": "L", "seed": seed, "run": r, "violation": {"invariant": "R1", "detail": sig["detail"]},
+                                "note": "re-run `VERIF_SEED=<seed> bin/check C11` to reproduce: the divergence needs the preceding runs of the worker process as history",
+                                "plan": Value::Null});
+                            write_json(&path, &rec).map_err(|e| e.to_string())?;
+                            out.violations.push((sig, path));
+                        }
+                    }
+                }
+            }
+        }
+    }
     out.distinct_nontrivial = nontrivial.len() as u64;
     out.wall_s = t0.elapsed().as_secs_f64();
     out.stats = json!({
@@ -1238,7 +1256,7 @@ pub fn run_tier(paths: &Paths, seed: u64, n: u64, nworkers: usize, selfcheck: u6
         "distinct_probe_map_iteration_orders": probe_orders.len(),
         "getrandom_draws": getrandom, "clock_reads": clock_reads,
         "rejected_source_diagnostic_mismatches_canary_not_judged": canary,
-        "determinism_selfcheck_runs": sc,
+        "determinism_selfcheck_runs": selfcheck.min(n),
         "threads_found_blocked_on_a_lock_of_the_code_under_test": blocked_total,
         "yield_hook_enabled": cfg!(feature = "hooks"),
     });
@@ -1246,7 +1264,36 @@ pub fn run_tier(paths: &Paths, seed: u64, n: u64, nworkers: usize, selfcheck: u6
     Ok(out)
 }
 
-pub fn replay(paths: &Paths, _v: &Value, file: &Path) -> i32 {
+pub fn replay(paths: &Paths, v: &Value, file: &Path) -> i32 {
+    if v["violation"]["invariant"] == "R1" {
+        // history-dependence across runs: execute runs 0..=r in one worker process and run r alone
+        // in another; the two observations of run r must agree
+        let r = v["run"].as_u64().unwrap_or(0);
+        let seed = v["seed"].as_u64().unwrap_or(1);
+        let dir = paths.build.join("scratch").join("l-replay");
+        let _ = std::fs::create_dir_all(&dir);
+        let (a, b) = (dir.join("a.jsonl"), dir.join("b.jsonl"));
+        let run = |from: u64, out: &Path| -> Option<Value> {
+            let mut ch = spawn_worker(paths, seed, from, r + 1, 1, out, 1200).ok()?;
+            if !ch.wait().ok()?.success() {
+                return None;
+            }
+            collect(out).ok()?.into_iter().find(|x| x["run"].as_u64() == Some(r))
+        };
+        return match (run(0, &a), run(r, &b)) {
+            (Some(x), Some(y)) => {
+                if x["digest"] != y["digest"] {
+                    println!("reproduced: invariant R1 — run {r} observed after runs 0..{r} differs from run {r} observed alone");
+                    println!("VIOLATION property=C11 replay={}", file.display());
+                    1
+                } else {
+                    println!("not reproduced on the current tree");
+                    0
+                }
+            }
+            _ => 2,
+        };
+    }
     let exe = match std::env::current_exe() {
         Ok(e) => e,
         Err(_) => return 2,
